@@ -84,7 +84,7 @@ def triage(rep, prop, mod, raw, classify):
         v, ok, detail = confirmed[0]
         d = None
         if ok:
-            d = common.save_replay(prop, {'skeleton': v['skeleton'], 'source': v['source'], 'options': v['options'], 'tsx': v.get('tsx', False), 'variants': v.get('variants'), 'alt_sources': v.get('alt_sources'),
+            d = common.save_replay(prop, {'skeleton': v['skeleton'], 'source': v['source'], 'options': v['options'], 'tsx': v.get('tsx', False), 'variants': v.get('variants'), 'alt_sources': v.get('alt_sources'), 'twice': v.get('twice'),
                                           'obligation': v['obligation'], 'role': role}, {
                 'input.' + ('tsx' if v.get('tsx') else 'jsx'): v['source'], 'options.json': json.dumps(v['options']),
                 'native_output.js': (detail or {}).get('code') or '', 'verdict.json': json.dumps(detail, default=str, indent=1),
@@ -102,7 +102,7 @@ world.RUST = {v: k for k, v in world.JSON_NAMES.items()}
 
 def replay_dir(prop, mod, path):
     w = json.load(open(os.path.join(path, 'witness.json')))
-    v = {'source': w['source'], 'options': w['options'], 'tsx': w.get('tsx', False), 'kind': 'violation', 'obligation': w['obligation'], 'variants': w.get('variants'), 'alt_sources': w.get('alt_sources')}
+    v = {'source': w['source'], 'options': w['options'], 'tsx': w.get('tsx', False), 'kind': 'violation', 'obligation': w['obligation'], 'variants': w.get('variants'), 'alt_sources': w.get('alt_sources'), 'twice': w.get('twice')}
     ok, detail = harness.native_check(_e3(), mod.oracle, v)
     print(json.dumps(detail, default=str)[:1500])
     if ok:
